@@ -1,5 +1,7 @@
 pub mod error;
 pub mod ty;
+#[cfg(sylt_verif)]
+pub mod verif;
 
 use std::path::PathBuf;
 
